@@ -490,7 +490,14 @@ pub fn gen_float_pair(rng: &mut Rng, f32_run: bool) -> Option<PairCase> {
 /// ulp-slope constructions around the known one-ulp bump (N2): a steep segment whose x-extent is one ulp,
 /// crossed by a long flat one below its left endpoint
 pub fn gen_n2_pair(rng: &mut Rng, f32_run: bool) -> PairCase {
-    let x1 = if f32_run { (1.0 + rng.below(1000) as f32 / 8.0) as f64 } else { 1.0 + rng.below(1000) as f64 / 8.0 };
+    // x of the steep segment's upper-left endpoint: positive, negative, +0.0 and -0.0
+    let base = match rng.below(8) {
+        0 => 0.0,
+        1 => -0.0,
+        2 | 3 => -(1.0 + rng.below(1000) as f64 / 8.0),
+        _ => 1.0 + rng.below(1000) as f64 / 8.0,
+    };
+    let x1 = if f32_run { base as f32 as f64 } else { base };
     let x2 = next_up(x1, f32_run);
     let y_top = 10.0 + rng.below(50) as f64;
     let y = rng.below(9) as f64 + 0.5;
